@@ -497,9 +497,9 @@ class World:
         o = op['op']
         if o in ('add_lf', 'write', 'set_sul'):
             need.append('file:' + op['fid'])
-        if o in ('add', 'nf_data', 'read_props'):
+        if o in ('add', 'nf_data', 'read_props', 'set_fh'):
             need.append('lf:' + op['lf'])
-        if o in ('set', 'set_prop', 'get'):
+        if o in ('set', 'set_prop', 'get', 'set_attrs', 'item_id'):
             need.append(op['h'])
         need.extend(values.refs_in(op.get('kwargs')))
         need.extend(values.refs_in(op.get('v')))
